@@ -134,6 +134,13 @@ def main():
             if r.status == "fail" and not r.failed:
                 inconclusive.append((j.name, "FAILED verdict without a parsed failing check"))
                 continue
+            if r.status in ("ok", "fail") and not bad and j.expect_fail:
+                lacking = [p for p in j.expect_fail if not any(re.search(p, d) for d, _ in r.failed)]
+                if lacking:
+                    # the documented panic did not happen: the call returned (or was unreachable)
+                    bad = [("expected panic %s did not occur" % lacking, "")]
+                    inconclusive.append((j.name, "documented panic %s not reachable" % lacking))
+                    continue
             if r.status == "ok" or (r.status == "fail" and not bad):
                 missing = [d for d, s in r.covers.items() if d.startswith("W:") and s != "SATISFIED"]
                 if missing:
